@@ -108,7 +108,7 @@ def replay_merger(d):
     return (not p), "seed %s: %s" % (d["inputs"]["seed"], p or "merge == sorted union")
 
 
-@bounded("C12.bam_merger", ["C12"], note="the real BAMOnlineMerger over 1-3 pysam-written coordinate-sorted BAMs of <= 5 records with many "
+@bounded("C12.bam_merger", ["C12"], shards=8, note="the real BAMOnlineMerger over 1-3 pysam-written coordinate-sorted BAMs of <= 5 records with many "
          "equal (start, end) pairs: the merged stream is the multiset union of the files, ordered by (start, end, file index), and never "
          "compares two AlignedSegment objects (no TypeError)")
 def c12_merger(tier, rng):
